@@ -35,10 +35,17 @@ class Journey(O.Monitor):
         t = Q.current_time
         for nd in Q.transitive_nodes:
             for ind in O.customers(nd):
-                nmov = sum(1 for r in ind.data_records if moving(r))
+                mov = [r for r in ind.data_records if moving(r)]
+                nmov = len(mov)
                 s = (nd.id_number, nmov)
-                if self.sig.get(ind.id_number) != s:
+                old = self.sig.get(ind.id_number)
+                if old != s:
                     self.sig[ind.id_number] = s
+                    if old is not None and old[1] is not None and nmov - old[1] > 1:
+                        # several hops within one event (a pre-emptive reroute chain): the intermediate stops are not observable
+                        # after the event; they are taken from the records, the final stop is the observed one
+                        for r in mov[old[1]:nmov - 1]:
+                            self.visits.setdefault(ind.id_number, []).append((r.destination, t))
                     self.visits.setdefault(ind.id_number, []).append((nd.id_number, t))
                     self.objs[ind.id_number] = ind
         ex = Q.nodes[-1].all_individuals
